@@ -159,8 +159,8 @@ func runC07(c *Ctx) {
 
 	f = p.Method(pkgTransform, "Controller", "reconcileTearingDownInput")
 	c.mustCutEach("R07.6", "removeInputFinalizers[id]=…", f, MapWriteOnField("runState", "removeInputFinalizers"), 1, map[string]EdgePred{
-		"inputFinalizers":     FactEdge("true(*.options.inputFinalizers)"),
-		"finalizer present":   FactEdge(factFalse("(*pkg/resource.Finalizers).Add")),
+		"inputFinalizers":      FactEdge("true(*.options.inputFinalizers)"),
+		"finalizer present":    FactEdge(factFalse("(*pkg/resource.Finalizers).Add")),
 		"removal callback nil": FactEdge("nil(call:dyn:*param#0.finalizerRemovalFunc(*"),
 	})
 
